@@ -130,8 +130,227 @@ func init() {
 		b.WriteString("Definition xattr_name : string := " + coqString(strings.Trim(consts["xattrName"], `"`)) + ".\n")
 		b.WriteString("Definition hash_length : string := " + coqString(consts["hashLength"]) + ".\n")
 		b.WriteString("Definition full_hash_length : string := " + coqString(consts["fullHashLength"]) + ".\n")
+		c32Prepare(&b)
 		return b.String()
 	}
+}
+
+// c32Prepare (follow-up: the work directory plz-out/tmp/<target>._build):
+//   - prepare_directory: the effect calls of prepareDirectory in source order, each with the condition of the
+//     if statements around it (source text; "" = unconditional);
+//   - prepare_wipe_cond: the condition around its fs.RemoveAll(directory), translated into a Coq boolean function
+//     of the `remove` argument and of fs.IsDirectory(directory) (closed expression language: the parameter,
+//     fs.IsDirectory(directory), !, &&, ||, parentheses; anything else fails closed);
+//   - prepare_directories: the calls of prepareDirectories with their argument texts;
+//   - build_target_tmp: the calls of buildTarget that touch the work directory, in source order.
+func c32Prepare(b *strings.Builder) {
+	_, f := parseFile("src/build/build_step.go")
+	pd := findFunc(f, "", "prepareDirectory")
+	if pd.Body == nil || pd.Type.Params == nil || len(pd.Type.Params.List) != 2 {
+		failShape("prepareDirectory: expected (directory string, remove bool)")
+	}
+	pname := func(i int) string {
+		fl := pd.Type.Params.List[i]
+		if len(fl.Names) != 1 {
+			failShape("prepareDirectory: parameter list shape")
+		}
+		return fl.Names[0].Name
+	}
+	dirParam, removeParam := pname(0), pname(1)
+	if cnExpr(pd.Type.Params.List[0].Type) != "string" || cnExpr(pd.Type.Params.List[1].Type) != "bool" {
+		failShape("prepareDirectory: parameter types")
+	}
+	vocab := map[string]bool{"fs.RemoveAll": true, "os.RemoveAll": true, "os.Remove": true, "os.MkdirAll": true, "os.Mkdir": true, "fs.EnsureDir": true}
+	type gc struct{ guard, call string }
+	var calls []gc
+	var wipeCond ast.Expr
+	wipes := 0
+	var walkStmts func(list []ast.Stmt, guards []ast.Expr)
+	guardText := func(gs []ast.Expr) string {
+		var parts []string
+		for _, g := range gs {
+			parts = append(parts, cnExpr(g))
+		}
+		return strings.Join(parts, " && ")
+	}
+	collect := func(n ast.Node, guards []ast.Expr) {
+		ast.Inspect(n, func(x ast.Node) bool {
+			switch y := x.(type) {
+			case *ast.FuncLit, *ast.DeferStmt, *ast.GoStmt:
+				failShape("prepareDirectory: function literal, defer or go statement")
+			case *ast.CallExpr:
+				name := c32CallName(y)
+				if vocab[name] {
+					if len(y.Args) < 1 || cnExpr(y.Args[0]) != dirParam {
+						failShape("prepareDirectory: %s is not applied to %s", name, dirParam)
+					}
+					calls = append(calls, gc{guardText(guards), name})
+					if name != "os.MkdirAll" {
+						wipes++
+						if name != "fs.RemoveAll" {
+							failShape("prepareDirectory: removes with %s", name)
+						}
+						var c ast.Expr
+						for _, g := range guards {
+							if c == nil {
+								c = g
+							} else {
+								c = &ast.BinaryExpr{X: c, Op: token.LAND, Y: g}
+							}
+						}
+						wipeCond = c
+					}
+				}
+			}
+			return true
+		})
+	}
+	walkStmts = func(list []ast.Stmt, guards []ast.Expr) {
+		for _, st := range list {
+			switch y := st.(type) {
+			case *ast.IfStmt:
+				if y.Else != nil {
+					failShape("prepareDirectory: if with else")
+				}
+				if y.Init != nil {
+					collect(y.Init, guards)
+				}
+				collect(y.Cond, guards)
+				walkStmts(y.Body.List, append(append([]ast.Expr{}, guards...), y.Cond))
+			case *ast.BlockStmt:
+				walkStmts(y.List, guards)
+			case *ast.ForStmt, *ast.RangeStmt, *ast.SwitchStmt, *ast.TypeSwitchStmt, *ast.SelectStmt, *ast.LabeledStmt, *ast.BranchStmt:
+				failShape("prepareDirectory: control flow other than if")
+			default:
+				collect(st, guards)
+			}
+		}
+	}
+	walkStmts(pd.Body.List, nil)
+	if wipes != 1 {
+		failShape("prepareDirectory: expected exactly one fs.RemoveAll(%s), found %d removals", dirParam, wipes)
+	}
+	var pairs []string
+	for _, c := range calls {
+		pairs = append(pairs, "("+coqString(c.guard)+", "+coqString(c.call)+")")
+	}
+	b.WriteString("Definition prepare_directory : list (string * string) := [" + strings.Join(pairs, "; ") + "].\n")
+	// the early `return err` inside the guarded block does not change which calls run before it; but an early
+	// return BEFORE the removal would: only `if` statements whose body ends in `return err` after a vocabulary
+	// call are present in the recognised shape, which the literal comparison of prepare_directory pins.
+	var tr func(e ast.Expr) string
+	tr = func(e ast.Expr) string {
+		switch y := e.(type) {
+		case nil:
+			return "true"
+		case *ast.ParenExpr:
+			return "(" + tr(y.X) + ")"
+		case *ast.Ident:
+			if y.Name == removeParam {
+				return "remove"
+			}
+			if y.Name == "true" || y.Name == "false" {
+				return y.Name
+			}
+		case *ast.UnaryExpr:
+			if y.Op == token.NOT {
+				return "(negb " + tr(y.X) + ")"
+			}
+		case *ast.BinaryExpr:
+			switch y.Op {
+			case token.LAND:
+				return "(" + tr(y.X) + " && " + tr(y.Y) + ")"
+			case token.LOR:
+				return "(" + tr(y.X) + " || " + tr(y.Y) + ")"
+			}
+		case *ast.CallExpr:
+			if c32CallName(y) == "fs.IsDirectory" && len(y.Args) == 1 && cnExpr(y.Args[0]) == dirParam {
+				return "is_directory"
+			}
+		}
+		failShape("prepareDirectory: condition of the removal not in the closed expression language: %s", cnExpr(e))
+		return ""
+	}
+	b.WriteString("Definition prepare_wipe_cond (remove is_directory : bool) : bool := (" + tr(wipeCond) + ")%bool.\n")
+
+	// prepareDirectories: its calls with argument texts
+	pds := findFunc(f, "", "prepareDirectories")
+	if pds.Body == nil {
+		failShape("prepareDirectories has no body")
+	}
+	pairs = nil
+	ast.Inspect(pds.Body, func(x ast.Node) bool {
+		switch y := x.(type) {
+		case *ast.FuncLit, *ast.DeferStmt, *ast.GoStmt, *ast.ForStmt, *ast.RangeStmt:
+			failShape("prepareDirectories: unexpected statement")
+		case *ast.CallExpr:
+			name := c32CallName(y)
+			if strings.HasPrefix(name, "prepare") || strings.Contains(name, "Remove") || strings.Contains(name, "Mkdir") {
+				var as []string
+				for _, a := range y.Args {
+					as = append(as, cnExpr(a))
+				}
+				pairs = append(pairs, "("+coqString(name)+", "+coqString(strings.Join(as, ", "))+")")
+				return false
+			}
+		}
+		return true
+	})
+	b.WriteString("Definition prepare_directories : list (string * string) := [" + strings.Join(pairs, "; ") + "].\n")
+
+	// buildTarget: the calls that touch the work directory
+	bt := findFunc(f, "", "buildTarget")
+	tv := map[string]bool{"prepareDirectories": true, "prepareDirectory": true, "prepareSources": true, "build": true, "StoreTargetMetadata": true,
+		"moveOutputs": true, "calculateAndCheckRuleHash": true, "fs.RemoveAll": true, "os.RemoveAll": true}
+	var seq []string
+	depth := 0
+	var walk func(n ast.Node)
+	walk = func(n ast.Node) {
+		ast.Inspect(n, func(x ast.Node) bool {
+			switch y := x.(type) {
+			case *ast.FuncLit:
+				if x != n {
+					depth++
+					walk(y.Body)
+					depth--
+					return false
+				}
+			case *ast.DeferStmt:
+				depth++
+				walk(y.Call)
+				depth--
+				return false
+			case *ast.GoStmt:
+				depth++
+				walk(y.Call)
+				depth--
+				return false
+			case *ast.IfStmt:
+				// the filegroup branch returns before the work directory is touched
+				if cnExpr(y.Cond) == "target.IsFilegroup" {
+					return false
+				}
+			case *ast.CallExpr:
+				name := c32CallName(y)
+				if tv[name] {
+					if depth > 0 {
+						failShape("buildTarget: %s inside a function literal, defer or go statement", name)
+					}
+					if strings.HasSuffix(name, "RemoveAll") {
+						var as []string
+						for _, a := range y.Args {
+							as = append(as, cnExpr(a))
+						}
+						name += "(" + strings.Join(as, ", ") + ")"
+					}
+					seq = append(seq, name)
+				}
+			}
+			return true
+		})
+	}
+	walk(bt.Body)
+	b.WriteString("Definition build_target_tmp : list string := " + coqStringList(seq) + ".\n")
 }
 
 // c32CallName: "pkg.Fn" for a call through a package-like identifier the vocabulary may name, else the bare
